@@ -305,4 +305,47 @@ func ruleInput(c *Ctx) {
 		})
 		c.check(must["filenameIndex"] && must["hadFiles"] && one, "operands:cursor", sec.Pos(), "every successful setExecuteConfig starts the operand cursor at 1 and clears 'had files'", "setExecuteConfig does not (on every successful path) set the operand cursor to 1 and clear hadFiles: with ExecProgram (which does not call resetCore) ARGV[0] would be treated as the first operand, or operands of an earlier run would count")
 	}
+	// "had a file operand" is recorded when an input is installed, not when it yields a record: the only
+	// store of true is in setFile, on every path through it (an operand with no records - an empty file,
+	// /dev/null - must still suppress the fall-back to standard input)
+	if sf := c.ssaFunc("interp", "interp.setFile"); sf != nil {
+		inSetFile := false
+		if len(sf.Blocks) > 0 {
+			for _, b := range sf.Blocks {
+				for _, in := range b.Instrs {
+					if name, val := interpFieldStore(in); name == "hadFiles" {
+						if k, ok := val.(*ssa.Const); ok && k.Value != nil && k.Value.ExactString() == "true" {
+							// on every path: the block dominates every return
+							dom := true
+							for _, rb := range sf.Blocks {
+								if len(rb.Instrs) > 0 {
+									if _, isRet := rb.Instrs[len(rb.Instrs)-1].(*ssa.Return); isRet && !b.Dominates(rb) {
+										dom = false
+									}
+								}
+							}
+							inSetFile = dom
+						}
+					}
+				}
+			}
+		}
+		elsewhere := ""
+		for _, fn := range c.srcFuncs("interp") {
+			if fn == sf {
+				continue
+			}
+			allInstrs(fn, func(in ssa.Instruction) {
+				if name, val := interpFieldStore(in); name == "hadFiles" {
+					if k, ok := val.(*ssa.Const); ok && k.Value != nil && k.Value.ExactString() == "true" {
+						elsewhere = fnKey(fn)
+					}
+				}
+			})
+		}
+		c.check(inSetFile && elsewhere == "", "operands:had-files", sf.Pos(), "hadFiles is set exactly when an input is installed (setFile, every path)",
+			"'had a file operand' is not recorded unconditionally in setFile (also set in: "+elsewhere+"): when every file operand yields no record the interpreter falls back to reading standard input, so NR, FNR and FILENAME count records that are not operands")
+	} else {
+		c.undecided("anchor:setFile", token.NoPos, "(*interp).setFile not found")
+	}
 }
